@@ -80,9 +80,11 @@ Remove(e) == /\ e \in Conns /\ reg[e] = "yes"
              /\ disc' = [disc EXCEPT ![e] = TRUE]
              /\ UNCHANGED <<kick, cn, phase, replaced>>
 
-\* open: the connection is still open when Activated() returns = the login succeeded
+\* open: the connection was still open when Activated() returned = the login succeeded,
+\* i.e. c was registered inside the call (a kick may already have removed it again: the
+\* harness reads the flag and writes the record in two steps)
 LoginRet(c, open) == /\ c \in Conns /\ phase[c] = "login"
-                     /\ open => reg[c] = "yes"
+                     /\ open => reg[c] \in {"yes", "was"}
                      /\ phase' = [phase EXCEPT ![c] = "done"]
                      /\ disc' = IF open THEN disc ELSE [disc EXCEPT ![c] = TRUE]
                      /\ UNCHANGED <<kick, cn, reg, replaced, byId, byName>>
